@@ -19,8 +19,13 @@
 
 
 
+#include <new>
+
+
+
 #include "xercesc/sax/ErrorHandler.hpp"
 #include "xercesc/sax/SAXParseException.hpp"
+#include "xercesc/util/OutOfMemoryException.hpp"
 
 
 
@@ -212,6 +217,16 @@ parseDoc(
                     uri,
                     base,
                     &theErrorHandler);
+    }
+    catch(const xercesc::OutOfMemoryException&)
+    {
+        // Running out of memory is not a problem with the
+        // document: do not go on as if document() were empty.
+        throw;
+    }
+    catch(const std::bad_alloc&)
+    {
+        throw;
     }
     catch(...)
     {
